@@ -1,6 +1,7 @@
 import SigpyVerif.Model.Py
 import SigpyVerif.Model.Proto
 import SigpyVerif.Model.C14
+import SigpyVerif.Model.C14Power
 import SigpyVerif.Gen.C14Select
 namespace SigpyVerif.Drv.C14
 open SigpyVerif SigpyVerif.Proto SigpyVerif.C14
@@ -206,5 +207,22 @@ def handle (toks : List String) : String :=
         | _, _ => "err bad-op"
       else "err bad-op"
     | _, _, _, _ => "err bad-op"
+  | some "power" =>
+    -- `PowerMethod(M, x0)` stepped `iters` times with the GENERATED update; `MaxEig(M, max_iter=mi).run()` from `x0`
+    match getN "n", kv toks "M", getV "x0", getN "iters", (kv toks "mi").bind parseInt? with
+    | some n, some ms, some x0, some iters, some mi =>
+      match parseMat? ms n with
+      | some Mt =>
+        if x0.d.length != n then "err bad-op" else
+        let tr := iterate (Gen.C14.pmUpdate ratPmOps Mt.mulVec Gen.C14.maxEigNormFunc) iters (Gen.C14.pmInit x0)
+        let est := tr.map fun s => match s.maxEig with | some e => fmtRat e | none => "inf"
+        let xs := tr.map (·.x)
+        let its := tr.map fun s => fmtInt s.iter
+        let dn := tr.map fun s => fmtBool (Gen.C14.pmDone mi s)
+        let out := match maxEigRun ratPmOps Mt.mulVec x0 mi with | some e => fmtRat e | none => "inf"
+        let sep := ","
+        s!"ok est={if est.isEmpty then "-" else sep.intercalate est} x={fmtVecs xs} iter={if its.isEmpty then "-" else sep.intercalate its} done={if dn.isEmpty then "-" else sep.intercalate dn} out={out} def={fmtInt Gen.C14.maxEigDefaultIter}"
+      | none => "err bad-op"
+    | _, _, _, _, _ => "err bad-op"
   | _ => "err bad-op"
 end SigpyVerif.Drv.C14
